@@ -335,6 +335,25 @@ fn e3_values(res: &mut PartResult) {
         let f = |n: &str, v: f64| format!("{}({:x})", n, fbits(v));
         check("From<Arc<T>> handles + Arc<T> forwarding".into(), got, vec!["inc(2)".into(), "abs(9)".into(), f("ginc", 1.5), f("gdec", 0.5), f("gset", -3.0), f("rec", 4.0), "inc(7)".into(), "abs(8)".into(), f("ginc", 2.5), f("gdec", 3.5), f("gset", 4.5), f("rec", 5.5), f("rec", 6.5), f("rec", 6.5)], res);
     }
+    // batch counts are usize: counts at and beyond 32 bits are delivered in full as well (a counting double whose
+    // record() is one plain addition, so that the provided record_many loop of 2^32 + 5 rounds costs what a loop costs)
+    {
+        struct Cnt(std::cell::Cell<u64>, std::cell::Cell<u64>);
+        impl HistogramFn for Cnt {
+            fn record(&self, v: f64) {
+                self.0.set(self.0.get() + 1);
+                self.1.set(self.1.get() ^ v.to_bits());
+            }
+        }
+        for n in [u32::MAX as usize, 1usize << 32, (1usize << 32) + 5] {
+            let c = Cnt(Default::default(), Default::default());
+            HistogramFn::record_many(&c, 2.5, std::hint::black_box(n));
+            check(format!("provided HistogramFn::record_many(2.5, {})", n), vec![format!("{} calls", c.0.get())], vec![format!("{} calls", n)], res);
+            let a = Arc::new(Cnt(Default::default(), Default::default()));
+            HistogramFn::record_many(&a, 2.5, std::hint::black_box(n));
+            check(format!("Arc<T>: HistogramFn::record_many(2.5, {})", n), vec![format!("{} calls", a.0.get())], vec![format!("{} calls", n)], res);
+        }
+    }
     res.states = states.len();
     res.distinct_outcomes = states.len();
     res.sample(json!({"case": "gauge.set(i32::MIN) -> gset(bits of -2147483648.0)"}));
